@@ -137,7 +137,19 @@ fn ref_token<S: DeserializeOwned>(token: &[u8]) -> RefVerdict<S> {
     let Some(bytes) = ref_b64_decode(token) else { return RefVerdict::Refuse("not base64") };
     let Ok(v) = serde_json::from_slice::<Value>(&bytes) else { return RefVerdict::Refuse("not JSON") };
     if has_duplicate_keys(&bytes) {
-        return RefVerdict::Unclassified;
+        // a repeated key is a wrong shape wherever serde's derived, typed deserialisation of the
+        // token document says so (it refuses a repeated *known* field and ignores unknown ones):
+        // the reference here is the direct typed parse of the decoded bytes
+        #[derive(Deserialize)]
+        struct Typed<S> {
+            v: String,
+            page_start: S,
+        }
+        return match serde_json::from_slice::<Typed<S>>(&bytes) {
+            Ok(t) if t.v == "v1" => RefVerdict::Accept(t.page_start),
+            Ok(_) => RefVerdict::Refuse("wrong version"),
+            Err(_) => RefVerdict::Refuse("wrong shape (repeated field)"),
+        };
     }
     let Some(o) = v.as_object() else { return RefVerdict::Refuse("wrong shape") };
     if o.get("v") != Some(&json!("v1")) {
@@ -321,6 +333,36 @@ where
     }
 }
 
+/// Selectors with 128-bit fields (serde_json::Value cannot hold them, so this check avoids it).
+#[derive(Clone, Debug, PartialEq, Serialize, Deserialize, JsonSchema)]
+struct SelBig {
+    u: u128,
+    i: i128,
+}
+fn check_roundtrip_big(ctx: &Ctx, cn: &Cn, sel: &SelBig) {
+    cn.evals.fetch_add(1, Ordering::Relaxed);
+    let case = json!({"kind":"input","seam":"roundtrip_big","u": sel.u.to_string(), "i": sel.i.to_string()});
+    match issue(sel) {
+        Err(p) => ctx.report(Violation { sig: json!({"kind":"issue_panics"}), case, expected: json!("token or error"), observed: json!({"panic": p}) }),
+        Ok(None) => {
+            cn.not_issued.fetch_add(1, Ordering::Relaxed);
+        }
+        Ok(Some(tok)) => {
+            cn.issued.fetch_add(1, Ordering::Relaxed);
+            let back = real_parse::<SelBig>(&format!("page_token={}", pct(tok.as_bytes())));
+            if !matches!(&back, Ok(Ok(WhichPage::Next(s))) if s == sel) {
+                ctx.report(Violation {
+                    sig: json!({"kind":"issued_token_not_accepted_back","label":"128-bit fields","token_len_over_512": false,
+                        "observed": match &back { Err(_) => "panic", Ok(Err(_)) => "refused", Ok(Ok(WhichPage::Next(_))) => "different_selector", _ => "first_page" }}),
+                    case,
+                    expected: json!("the same selector"),
+                    observed: json!(match &back { Err(p) => format!("panic: {p}"), Ok(Err(e)) => format!("refused: {e}"), Ok(Ok(WhichPage::Next(s))) => format!("{s:?}"), _ => "first page".into() }),
+                });
+            }
+        }
+    }
+}
+
 fn mutations(tok: &[u8], full: bool) -> Vec<Vec<u8>> {
     let mut out = vec![];
     let n = tok.len();
@@ -372,6 +414,18 @@ fn structured<S: Serialize>(sel: &S) -> Vec<(String, Vec<u8>)> {
         ("reordered", format!("{{\"page_start\":{},\"v\":\"v1\"}}", ps)),
         ("trailing_garbage", format!("{}x", json!({"v": "v1", "page_start": ps}))),
         ("nested_token", json!({"v": "v1", "page_start": {"v": "v1", "page_start": ps}}).to_string()),
+        ("repeated_v", format!("{{\"v\":\"v1\",\"v\":\"v1\",\"page_start\":{}}}", ps)),
+        ("repeated_page_start", format!("{{\"v\":\"v1\",\"page_start\":{},\"page_start\":{}}}", ps, ps)),
+        ("repeated_field_in_page_start", {
+            // the selector's first field once more at the end (objects only)
+            match ps.as_object().and_then(|o| o.iter().next()) {
+                Some((k, v)) => {
+                    let body = ps.to_string();
+                    format!("{{\"v\":\"v1\",\"page_start\":{},{}:{}}}}}", &body[..body.len() - 1], serde_json::to_string(k).unwrap(), v)
+                }
+                None => "[]".to_string(),
+            }
+        }),
     ] {
         out.push((name.to_string(), enc(&text)));
     }
@@ -426,12 +480,22 @@ fn main() {
                     else if ty.ends_with("SelVec") { check_roundtrip::<SelVec>(ctx, &cn, &serde_json::from_value(v).unwrap(), "replay", &smp) }
                     else { check_roundtrip::<SelS>(ctx, &cn, &serde_json::from_value(v).unwrap(), "replay", &smp) }
                 }
+                "roundtrip_big" => check_roundtrip_big(ctx, &cn, &SelBig { u: case["u"].as_str().unwrap().parse().unwrap(), i: case["i"].as_str().unwrap().parse().unwrap() }),
                 _ => vh::c14live::replay(ctx, case),
             }
         });
     }
     let ctx = Ctx::new(&args, level, "E2+E3");
     let samples = Samples::new(10);
+
+    // ---- 1a. 128-bit selector fields at and around the 64-bit boundaries
+    let us: Vec<u128> = vec![0, 1, u64::MAX as u128 - 1, u64::MAX as u128, u64::MAX as u128 + 1, 1u128 << 100, u128::MAX - 1, u128::MAX];
+    let is: Vec<i128> = vec![0, -1, i64::MIN as i128, i64::MIN as i128 - 1, i64::MAX as i128, i64::MAX as i128 + 1, u64::MAX as i128 + 1, i128::MIN, i128::MAX];
+    for u in &us {
+        for i in &is {
+            check_roundtrip_big(&ctx, &cn, &SelBig { u: *u, i: *i });
+        }
+    }
 
     // ---- 1. round trip, every length 0..=max_len for each character class
     let classes: [(&str, char); 7] = [("ascii", 'e'), ("quote", '"'), ("latin", 'é'), ("emoji", '\u{1F600}'), ("control", '\u{1}'), ("tilde", '~'), ("cjk", '日')];
